@@ -358,6 +358,8 @@ def run_twocerts(c):
 def run_partial(c):
     first_names = ['rsa-sha2-512', 'ssh-rsa'] if c['first'] == 'rsa' else ['ssh-rsa-cert-v01@openssh.com']
     others = ['ssh-ed25519', 'ssh-ed448', 'ecdsa-sha2-nistp256']
+    # ... and a refused type that is rated with the thresholds of the key (or CA) presented just before it: an RSA certificate name after a plain RSA key, an Ed25519 certificate after an RSA certificate with a small CA
+    others = others + (['rsa-sha2-256-cert-v01@openssh.com'] if c['first'] == 'rsa' else ['ssh-ed25519-cert-v01@openssh.com'])
     viol, counters = [], {}
 
     def script(bits):
